@@ -35,6 +35,7 @@ CLASS_SPECS = [
     dict(cls='gb', slug='g:b'),
     dict(cls='mi', slug='mi', inputs=[dict(ref='a', how='name')], pulls=['a'], meta_inherit=True),
     dict(cls='selfpat', slug='h:a', inputs=[dict(ref='~(.*:)?a', how='name')]),
+    dict(cls='ol', slug='ol', inputs=[dict(ref='a', how='param_in_list', default=None), dict(ref='b', how='name')]),
 ]
 CLSNAME = {s['cls']: 'R' + s['cls'].capitalize() + 'Task' for s in CLASS_SPECS}
 
@@ -65,7 +66,7 @@ def menus(tier):
     root_tasks = [[], ['trainx'], ['a'], ['c']]
     p1 = []
     for tasks in (['a', 'b'], ['a', 'b', 'z'], ['a', 'c'], ['b'], ['a', 'w', 'pat'], ['cy1', 'cy2'], ['a', 'b', 'bsub'],
-                  ['a', 'w', 'both', 'both2'], ['a', 'both'], ['a', 'c', 'gb'], ['a', 'mi'], ['a', 'selfpat']):
+                  ['a', 'w', 'both', 'both2'], ['a', 'both'], ['a', 'c', 'gb'], ['a', 'mi'], ['a', 'selfpat'], ['a', 'b', 'ol'], ['a', 'ol']):
         for vals in ({}, {'x': 1}):
             for uses in ([], [U('P2')], [U('P2', 'n')]):
                 if tasks in (['b'], ['cy1', 'cy2']) and vals:
@@ -399,7 +400,7 @@ C09_CATS = {'params', 'builds-conflict', 'builds-param', 'ctx-mutated', 'constru
 def run(ctx, cats):
     from .core import MachineryError
 
-    mod = 61 if ctx.quick() else 3
+    mod = 97 if ctx.quick() else 3
     text, cfg, sizes = mc(ctx.tier, ctx.seed, mod)
     res = run_tlc('MCResolve', cfg_text=cfg, extra_files={'MCResolve.tla': text}, workers=16, timeout=3000)
     account(ctx, res, f'Resolve: forests with menu sizes {sizes}, 1/{mod} of the product enumerated')
